@@ -3,6 +3,8 @@
 -/
 import Kvass.Pins.Coord
 import Kvass.Proofs.CoordScale
+import Kvass.Proofs.CoordNeed
+import Kvass.Proofs.CoordDown
 
 namespace Kvass.Props.C07
 open Kvass Kvass.Coord Kvass.Spec
@@ -107,5 +109,159 @@ theorem C07_noShrink_idleOff (swr : Swr) (sc : Sched) (inp : Input) (hoff : inp.
         rw [hl, hlen] at this; exact this
       · rw [Sites.scaleDownOn_iff, hoff] at hsd; cases hsd
       · rw [hlen]; exact Int.le_refl _
+
+/-- **C07 (no shrink while space is needed)**: whatever the idle-time setting and whichever shards
+    are in sync — if after a crash-free cycle a discovered, healthy, not too big target of non-zero
+    size is planned on no shard, no request of that cycle is below the current shard count (while
+    that count does not exceed max-shard). -/
+theorem C07_noShrink_need (swr : Swr) (sc : Sched) (inp : Input)
+    (hnn : ∀ k, 0 ≤ (globalOf (infos0 inp) inp.explore k).series ∧ 0 ≤ (globalOf (infos0 inp) inp.explore k).total)
+    (hfull : ∀ k ∈ inp.active, k ∈ sc.assign)
+    (h : Hash) (ha : h ∈ inp.active)
+    (hskip : Gen.assignSkip (globalOf (infos0 inp) inp.explore h) = false)
+    (hbig : Gen.tooBig inp.opt (globalOf (infos0 inp) inp.explore h) = false)
+    (hsz : 0 < (globalOf (infos0 inp) inp.explore h).series + (globalOf (infos0 inp) inp.explore h).total)
+    (hun : ∀ s ∈ (cycle swr sc inp).final, s.scraping.get h = none)
+    (hnc : (cycle swr sc inp).crashed = false)
+    (hn : (inp.probes.length : Int) ≤ inp.opt.maxShard) :
+    ∀ k ∈ (cycle swr sc inp).scales, (inp.probes.length : Int) ≤ k := by
+  intro k hk
+  by_cases hne : stopsEarly inp = true
+  · rcases cycle_scales swr sc inp _ rfl with ⟨hs, _⟩ | ⟨k0, _, _, hne', _⟩
+    · rw [hs] at hk
+      obtain ⟨rfl, h'⟩ := earlyScales_mem inp k hk
+      omega
+    · rw [hne] at hne'; cases hne'
+  · have hne : stopsEarly inp = false := by simpa using hne
+    obtain ⟨c3, need, hfin, _, _, hscales⟩ :=
+      up_branch_of_unplaced swr sc inp hne hnn hfull h ha hskip hbig hsz hun hnc
+    rw [hscales] at hk
+    rcases List.mem_append.mp hk with h1 | h1
+    · obtain ⟨rfl, h'⟩ := earlyScales_mem inp k h1
+      omega
+    · simp at h1; subst h1
+      apply clamp_ge _ _ _ _ hn
+      have hlen := final_length swr sc inp hne
+      have := tryScaleUp_ge inp.opt c3.shards need
+      rw [hfin] at hlen
+      rw [hlen] at this; exact this
+
+/-- **C07 (never removes a shard still in use)**: for every schedule and input whose reports are
+    sidecar-producible (a shard that reports an expired idle time reports no target), no shard count
+    requested during a cycle is below the position of the last shard that is still needed — not in
+    sync, told to hold a target, reporting a target, or not idle-expired (while the current count
+    does not exceed max-shard). -/
+theorem C07_keepsNeeded (swr : Swr) (sc : Sched) (inp : Input)
+    (hprod : ∀ p ∈ inp.probes, (effRt p).idle = .expired → reported p = [])
+    (hn : (inp.probes.length : Int) ≤ inp.opt.maxShard) :
+    ∀ k ∈ (cycle swr sc inp).scales, (C07.lastNeeded inp (Obs.ofOutcome (cycle swr sc inp)) : Int) ≤ k := by
+  intro k hk
+  have hlast := lastNeeded_le_len inp (Obs.ofOutcome (cycle swr sc inp))
+  have early : ∀ k', k' ∈ earlyScales inp → (C07.lastNeeded inp (Obs.ofOutcome (cycle swr sc inp)) : Int) ≤ k' := by
+    intro k' hk'
+    obtain ⟨rfl, h'⟩ := earlyScales_mem inp k' hk'
+    omega
+  by_cases hbad : (cycle swr sc inp).crashed = true ∨ stopsEarly inp = true
+  · rcases cycle_scales swr sc inp _ rfl with ⟨hs, _⟩ | ⟨k0, _, hcr, hne', _⟩
+    · rw [hs] at hk; exact early k hk
+    · rcases hbad with h | h
+      · rw [hcr] at h; cases h
+      · rw [hne'] at h; cases h
+  · have hnc : (cycle swr sc inp).crashed = false := by
+      cases h : (cycle swr sc inp).crashed with
+      | false => rfl
+      | true => exact absurd (Or.inl h) hbad
+    have hne : stopsEarly inp = false := by
+      cases h : stopsEarly inp with
+      | false => rfl
+      | true => exact absurd (Or.inr h) hbad
+    have hflen := final_length swr sc inp hne
+    have heq := cycle_eq_finish swr sc inp hne
+    -- the state after the assignment stage and what is known of it
+    have hidle2 := alleviate_pres (idleSame_presA inp.opt (globalOf (infos0 inp) inp.explore)
+        (gc inp.opt inp.active (infos0 inp))).toPres swr sc (startCS inp) (idleSame_refl _ _ _)
+    have hidle3 := assign_pres (idleSame_presA inp.opt (globalOf (infos0 inp) inp.explore)
+        (gc inp.opt inp.active (infos0 inp))) inp.active sc _ hidle2
+    generalize (assign inp.opt inp.active (globalOf (infos0 inp) inp.explore) sc
+        (alleviate swr inp.opt sc (startCS inp)).1) = r3 at heq hidle3
+    obtain ⟨c3, picks, need2⟩ := r3
+    simp only at heq hidle3
+    generalize spaceAdd (alleviate swr inp.opt sc (startCS inp)).2 need2 = need at heq
+    rw [heq] at hnc
+    rcases finish_cases sc inp _ c3 picks need hnc with ⟨_, hfin, hsc⟩ | ⟨_, _, hfin, hsc⟩ | ⟨_, _, hfin, hsc⟩
+    · -- scale-up
+      rw [heq, hsc] at hk
+      rcases List.mem_append.mp hk with h1 | h1
+      · exact early k h1
+      · simp at h1; subst h1
+        have hl : c3.shards.length = inp.probes.length := by rw [← hfin, ← heq]; exact hflen
+        have := tryScaleUp_ge inp.opt c3.shards need
+        have := clamp_ge inp.opt (tryScaleUp inp.opt c3.shards need) inp.probes.length (by rw [← hl]; exact this) hn
+        omega
+    · -- scale-down
+      rw [heq, hsc] at hk
+      rcases List.mem_append.mp hk with h1 | h1
+      · exact early k h1
+      · simp at h1; subst h1
+        have hl : c3.shards.length = inp.probes.length := by
+          have := (tryScaleDown_pres (grows_presA inp.opt (fun _ => default) c3.shards).toPres sc c3 picks
+            (by have := grows_refl c3.shards c3.log c3.crashed; cases c3; simpa using this)).1
+          rw [← this, ← hfin, ← heq]; exact hflen
+        have hstop : (tryScaleDown inp.opt sc c3 picks).1 = (removableSuffix c3.shards c3.shards.length : Int) := rfl
+        have hsle := removableSuffix_le c3.shards c3.shards.length
+        have hln : C07.lastNeeded inp (Obs.ofOutcome (cycle swr sc inp)) ≤ removableSuffix c3.shards c3.shards.length := by
+          apply lastNeeded_le
+          intro i p r hm hneeded
+          obtain ⟨hp, hr⟩ := mem_shardsOf.mp hm
+          apply Classical.byContradiction
+          intro hcon
+          have hge : removableSuffix c3.shards c3.shards.length ≤ i := by omega
+          have hilt : i < c3.shards.length := by
+            rw [hl]
+            rcases Nat.lt_or_ge i inp.probes.length with h | h
+            · exact h
+            · rw [List.getElem?_eq_none h] at hp; cases hp
+          obtain ⟨s, hs3, hrem⟩ := removableSuffix_spec c3.shards c3.shards.length i hge hilt
+          rw [Sites.removable_iff] at hrem
+          obtain ⟨hch, hlen0, hexp⟩ := hrem
+          have hsf : (cycle swr sc inp).final[i]? = some s := by
+            rw [heq, hfin, tryScaleDown_frame inp.opt sc c3 picks i hge]; exact hs3
+          have hemp : s.scraping = [] := by
+            have : s.scraping.length = 0 := by exact_mod_cast hlen0
+            exact List.eq_nil_of_length_eq_zero this
+          have hsync : inSync p = true := by rw [← final_changeable swr sc inp hne hp hsf]; exact hch
+          have hidle : (effRt p).idle = .expired := by
+            obtain ⟨s1, h1, e1⟩ := hidle3 i s hs3
+            have inv := gc_inv inp.opt inp.active (infos0 inp)
+            obtain ⟨s0, h0, _, r0, _, _⟩ := inv.same i s1 h1
+            rw [infos0_get, hp] at h0
+            simp only [Option.map_some, Option.some.injEq] at h0
+            rw [← getInfo_rt p hsync, h0, ← r0, ← e1]; exact hexp
+          have := not_needed swr sc inp hne (by rw [heq]; exact hnc) hp hr hsf hch hemp hidle
+            (hprod p (List.mem_of_getElem? hp) hidle)
+          rw [this] at hneeded; cases hneeded
+        rw [hstop]
+        have hc := clamp_ge inp.opt (removableSuffix c3.shards c3.shards.length : Int)
+          (removableSuffix c3.shards c3.shards.length : Int) (Int.le_refl _) (by have h1 := hsle; have h2 := hl; omega)
+        omega
+    · -- neither
+      rw [heq, hsc] at hk
+      rcases List.mem_append.mp hk with h1 | h1
+      · exact early k h1
+      · simp at h1; subst h1
+        have hl : c3.shards.length = inp.probes.length := by rw [← hfin, ← heq]; exact hflen
+        have := clamp_ge inp.opt (c3.shards.length : Int) inp.probes.length (by rw [hl]; exact Int.le_refl _) hn
+        omega
+
+/-- the monitored clause itself -/
+theorem C07_keepsNeeded_spec (swr : Swr) (sc : Sched) (inp : Input)
+    (hprod : ∀ p ∈ inp.probes, (effRt p).idle = .expired → reported p = []) :
+    C07.keepsNeeded inp (Obs.ofOutcome (cycle swr sc inp)) = true := by
+  unfold C07.keepsNeeded
+  by_cases hn : (inp.probes.length : Int) ≤ inp.opt.maxShard
+  · simp only [hn, decide_true, Bool.not_true, Bool.false_or, List.all_eq_true, decide_eq_true_eq]
+    intro k hk
+    exact C07_keepsNeeded swr sc inp hprod hn k hk
+  · simp [hn]
 
 end Kvass.Props.C07
